@@ -94,3 +94,34 @@ package storer
 //gvc:  ensures present: err == nil ==> s.#has[keyid(h)]
 //gvc:  ensures absent: is(err, plumbing.ErrObjectNotFound) ==> !s.#has[keyid(h)]
 //gvc:end
+
+// Interface contract of storer.ReflogStorer against an abstract map
+// #loglen : name id -> number of entries of that reference's log (trusted: the
+// implementations are not verified against it here).
+//gvc:ghost ReflogStorer.loglen chunkints
+
+//gvc:func ReflogStorer.Reflog
+//gvc:  trusted
+//gvc:  params s name
+//gvc:  results entries err
+//gvc:  ensures all: err == nil ==> len(entries) == s.#loglen[strid(name)]
+//gvc:  ensures nonneg: s.#loglen[strid(name)] >= 0
+//gvc:end
+
+//gvc:func ReflogStorer.AppendReflog
+//gvc:  trusted
+//gvc:  params s name entry
+//gvc:  results err
+//gvc:  modifies s.#loglen
+//gvc:  ensures appended: err == nil ==> s.#loglen == store(old(s.#loglen), strid(name), old(s.#loglen)[strid(name)] + 1)
+//gvc:  ensures unchanged: err != nil ==> s.#loglen == old(s.#loglen)
+//gvc:end
+
+//gvc:func ReflogStorer.DeleteReflog
+//gvc:  trusted
+//gvc:  params s name
+//gvc:  results err
+//gvc:  modifies s.#loglen
+//gvc:  ensures deleted: err == nil ==> s.#loglen == store(old(s.#loglen), strid(name), 0)
+//gvc:  ensures unchanged: err != nil ==> s.#loglen == old(s.#loglen)
+//gvc:end
